@@ -152,6 +152,46 @@ func c25NewWorld(r *Rng) *c25World {
 
 const c25NS = int64(1000000000)
 
+// c25FarTs: timestamps at huge distances from the clock reading nowS (seconds), all inside the
+// 1..20-digit grammar: beyond what a time.Duration can express (~9.22e9 s), powers of two, the
+// int64 edge, and values where time.Unix(ts, 0) itself wraps internally.
+func c25FarTs(r *Rng, nowS int64) string {
+	switch r.Intn(16) {
+	case 0:
+		return strconv.FormatInt(nowS+10000000000, 10)
+	case 1:
+		return strconv.FormatInt(max(nowS-10000000000, 0), 10)
+	case 2:
+		return strconv.FormatInt(1<<40, 10)
+	case 3:
+		return strconv.FormatInt(1<<62, 10)
+	case 4:
+		return strconv.FormatInt(nowS+9223372036, 10) // first second whose distance in ns still fits int64
+	case 5:
+		return strconv.FormatInt(nowS+9223372037, 10) // one more: the distance in ns no longer fits
+	case 6:
+		return strconv.FormatInt(nowS+9223372037+int64(r.Intn(1000000)), 10)
+	case 7:
+		return strconv.FormatInt(nowS+(1<<uint(r.Range(33, 61))), 10)
+	case 8:
+		return "9223372036854775807"
+	case 9:
+		return strconv.FormatInt(9223372036854775807-62135596800, 10) // last ts before time.Unix's internal offset wraps
+	case 10:
+		return strconv.FormatInt(9223372036854775807-62135596800+1, 10)
+	case 11:
+		return "0"
+	case 12:
+		return "1"
+	case 13:
+		return strconv.FormatInt(nowS+int64(r.Range(31, 4000))*86400, 10) // days to ~11 years ahead
+	case 14:
+		return strconv.FormatInt(max(nowS-int64(r.Range(31, 4000))*86400, 0), 10)
+	default:
+		return strconv.FormatInt(nowS+(1<<32), 10)
+	}
+}
+
 // ---------------------------------------------------------------- generator
 
 func c25Gen(g *Gen) {
@@ -213,6 +253,9 @@ func c25GenHistory(g *Gen, r *Rng) {
 		if ts < 0 {
 			ts = 0
 		}
+		if r.Chance(10) { // stamped far away from the clock, correctly signed
+			ts, _ = strconv.ParseInt(c25FarTs(r, base), 10, 64)
+		}
 		nonce := c25RandTok(r, 22)
 		if len(pool) > 0 && r.Chance(12) { // same nonce under another key / timestamp
 			nonce = strings.Split(pool[r.Intn(len(pool))].tok, ".")[3]
@@ -229,6 +272,9 @@ func c25GenHistory(g *Gen, r *Rng) {
 		// choose the next clock reading
 		var cand []int64
 		lo, hi := (p.ts-skew)*c25NS, (p.ts+skew+1)*c25NS
+		if p.ts > 9000000000 || p.ts < base-9000000000 { // far timestamp: its window is not a representable instant; stay near the clock
+			lo, hi = now, now+(2*skew+2)*c25NS
+		}
 		cand = append(cand, lo-1, lo, lo+int64(r.Intn(int(c25NS))), hi-1, hi, hi-c25NS, hi-c25NS-1, now, now+1, now+int64(r.Intn(int(2*skew+2)))*c25NS)
 		if a, ok := firstAccept[j]; ok {
 			cand = append(cand, a+skew*c25NS-1, a+skew*c25NS, a+skew*c25NS+1, a+(2*skew+1)*c25NS-1, a+(2*skew+1)*c25NS, a+2*skew*c25NS)
@@ -308,7 +354,7 @@ func c25Mutate(r *Rng, w *c25World, tok string, ts int64) string {
 			return s
 		}
 	}
-	switch r.Intn(26) {
+	switch r.Intn(28) {
 	case 0:
 		f[0] = Pick(r, []string{"v2", "V1", "", "v1 ", "v10", "1", "v"})
 		return remac()
@@ -383,6 +429,9 @@ func c25Mutate(r *Rng, w *c25World, tok string, ts int64) string {
 		f[4] = f[4][:42]
 	case 22:
 		f[4] = f[4] + "A"
+	case 26, 27: // timestamp at a huge distance from the clock, correctly signed
+		f[2] = c25FarTs(r, ts)
+		return remac()
 	case 23: // timestamp just outside / at the window, correctly signed
 		f[2] = strconv.FormatInt(ts+Pick(r, []int64{int64(w.skew), int64(w.skew) + 1, -int64(w.skew), -int64(w.skew) - 1, 2 * int64(w.skew)}), 10)
 		return remac()
@@ -515,6 +564,9 @@ func c25GenVerifyUnit(g *Gen, r *Rng) {
 		} else {
 			key := Pick(r, w.keys)
 			ts := now/c25NS + int64(r.Range(int(-skew-1), int(skew+1)))
+			if r.Chance(12) {
+				ts, _ = strconv.ParseInt(c25FarTs(r, now/c25NS), 10, 64)
+			}
 			p = c25Minted{c25Token(key.secret, key.kid, strconv.FormatInt(ts, 10), c25RandTok(r, 22), w.origin), ts}
 			toks = append(toks, p)
 		}
@@ -605,6 +657,22 @@ func c25SpecValid(w *c25World, now time.Time, tok string) (nonce string, ts int6
 		return "", 0, false
 	}
 	return f[3], ts, true
+}
+
+// c25OnlyWindowFails: the token is authentic in every respect except that its timestamp is
+// outside the skew window of the clock reading (judged on mathematical integers).
+func c25OnlyWindowFails(w *c25World, now time.Time, tok string) bool {
+	f := strings.Split(tok, ".")
+	if len(f) != 5 || !c25TsRe.MatchString(f[2]) {
+		return false
+	}
+	ts, err := strconv.ParseInt(f[2], 10, 64)
+	if err != nil {
+		return false
+	}
+	_, _, ok := c25SpecValid(w, time.Unix(ts, 0), tok) // valid at its own timestamp …
+	_, _, okNow := c25SpecValid(w, now, tok)          // … but not at the clock reading
+	return ok && !okNow
 }
 
 // c25Accepted remembers one accepted presentation by position, so the replay oracle costs nothing
@@ -756,6 +824,8 @@ func c25Exec(c *Case) {
 					cls := "pass-without-valid-proof"
 					if len(hdrs) != 1 {
 						cls = "pass-without-exactly-one-header"
+					} else if c25OnlyWindowFails(w, clock, hdrs[0]) {
+						cls = "passed-outside-window"
 					}
 					c.Oracle(cls, fmt.Sprintf("%q passed the gate (headers=%d) though no single proof header verifies for origin %q at %d", l, len(hdrs), w.origin, clock.Unix()))
 				}
